@@ -2,9 +2,11 @@
 from __future__ import annotations
 
 import ast
+import re
 
 from ..core import (AnalysisError, FuncInfo, Project, attr_chain, const_int, enclosing, expand, guards_of, local_defs,
-                    term, unparse)
+                    term, unparse, with_helpers)
+from ..order import POS, OrderAnalysis, OrderUnknown, emission_order, sort_direction
 from . import c01
 
 SC = "codelimit.common.Scanner"
@@ -23,21 +25,28 @@ def rule_R1(ctx, prj):
                 continue
             n += 1
             loc, ms = c.args[3], c.args[4]
-            lt, mt = term(fi, loc), unparse(ms)
             key = f"{fi.local}/SourceFileEntry"
             ok = False
-            if lt.replace(" ", "") in (f"sum([m.valueformin{mt}])", f"sum(m.valueformin{mt})"):
-                ok = True
-            elif lt.endswith(".loc") and mt == lt[:-4] + ".measurements()":
-                ok = True
-            elif lt.endswith("['loc']"):
-                base = lt[: -len("['loc']")]
-                # measurements list is filled from base['measurements'] in this function
-                loops = [l for l in fi.walk() if isinstance(l, ast.For) and unparse(l.iter) == f"{base}['measurements']"]
-                apps = [a for l in loops for a in ast.walk(l) if isinstance(a, ast.Call) and isinstance(a.func, ast.Attribute)
-                        and a.func.attr == "append" and unparse(a.func.value) == mt]
-                comp = any(isinstance(v, ast.ListComp) and unparse(v.generators[0].iter) == f"{base}['measurements']" for v, _ in local_defs(fi, mt) if v is not None)
-                ok = bool(apps) or comp
+            forms = [(loc, ms), (expand(fi, loc), expand(fi, ms)), (expand(fi, loc), ms)]
+            lt, mt = term(fi, loc), unparse(ms)
+            for le, me in forms:
+                l_, m_ = unparse(le), unparse(me)
+                if _is_sum_of_values(le, me):
+                    ok = True
+                elif l_.endswith(".loc") and m_ == l_[:-4] + ".measurements()":
+                    ok = True
+                elif l_.endswith("['loc']"):
+                    base = l_[: -len("['loc']")]
+                    mname = unparse(ms)
+                    # measurements list is filled from base['measurements'] in this function
+                    loops = [l for l in fi.walk() if isinstance(l, ast.For) and unparse(l.iter) == f"{base}['measurements']"]
+                    apps = [a for l in loops for a in ast.walk(l) if isinstance(a, ast.Call) and isinstance(a.func, ast.Attribute)
+                            and a.func.attr == "append" and unparse(a.func.value) == mname]
+                    comp = any(isinstance(v, ast.ListComp) and unparse(v.generators[0].iter) == f"{base}['measurements']" for v, _ in local_defs(fi, mname) if v is not None)
+                    ok = ok or bool(apps) or comp
+                if ok:
+                    lt, mt = l_, m_
+                    break
             if ok:
                 ctx.ok("R1", fi.site(c), f"{key}: loc = {lt[:50]} belongs to measurements {mt}")
             else:
@@ -46,100 +55,105 @@ def rule_R1(ctx, prj):
         raise AnalysisError(f"only {n} SourceFileEntry constructions found on the scan/read paths (3 confirmed by reading)")
 
 
-def _sort_key_is_position(fi: FuncInfo, call: ast.Call, elem_attr: str) -> str:
-    """sorted(..., key=lambda h: (line, column)) of tokens[h.<elem_attr>].location -> 'ok' | reason"""
+def _is_sum_of_values(le, me) -> bool:
+    """le is sum(<x>.value for <x> in ME) (list or generator form) with ME structurally equal to me"""
+    if not (isinstance(le, ast.Call) and attr_chain(le.func) == "sum" and len(le.args) == 1):
+        return False
+    g = le.args[0]
+    if not (isinstance(g, (ast.GeneratorExp, ast.ListComp)) and len(g.generators) == 1 and not g.generators[0].ifs):
+        return False
+    gen = g.generators[0]
+    if not (isinstance(gen.target, ast.Name) and unparse(g.elt) == f"{gen.target.id}.value"):
+        return False
+    return ast.dump(gen.iter) == ast.dump(me)
+
+
+def _reverse_arg(call: ast.Call):
     kw = {k.arg: k.value for k in call.keywords}
-    key = kw.get("key")
-    if isinstance(key, ast.Name) and key.id in fi.nested:
-        sub = fi.nested[key.id]
-        rets = [r for r in sub.walk() if isinstance(r, ast.Return) and r.value is not None]
-        if len(rets) != 1:
-            return "key function with several returns"
-        body = expand(sub, rets[0].value)
-        p = sub.params()[0]
-    elif isinstance(key, ast.Lambda):
-        body = key.body
-        p = key.args.args[0].arg
-    else:
-        return "no key function"
-    if isinstance(body, ast.Tuple) and len(body.elts) == 2:
-        a, b = unparse(body.elts[0]), unparse(body.elts[1])
-        if a.endswith(".location.line") and b.endswith(".location.column") and a[: -len(".line")] == b[: -len(".column")] and f"{p}.{elem_attr}" in a:
-            return "ok"
-        return f"key is ({a}, {b})"
-    if isinstance(body, ast.Attribute) and body.attr == "location":
-        return "key is a Location (not orderable)"
-    return f"key `{unparse(body)[:70]}` is not the pair (line, column) of the item's first token: items whose packed keys collide or overflow are mis-ordered"
+    rv = kw.get("reverse")
+    if len(call.args) > 2:
+        rv = call.args[2]
+    if rv is None:
+        return False
+    if isinstance(rv, ast.Constant) and isinstance(rv.value, bool):
+        return rv.value
+    return None
 
 
 def rule_R2(ctx, prj):
-    ctx.rule("R2", "measurements come out in source order: headers are sorted by the (line, column) pair of their first "
-                   "token, scopes are built from the reversed order and re-reversed (order typestate ASC at the end), the "
-                   "marker filter and nesting only select/regroup, fold_scopes puts every scope in exactly one place, and "
-                   "unfold_scopes is a pre-order walk", floor=5)
+    ctx.rule("R2", "measurements come out in source order: sort_headers orders by the (line, column) pair of the header's "
+                   "first token in the direction of its reverse parameter (key evaluated symbolically); the order "
+                   "typestate of the scope list is 'ascending position' at the return of "
+                   "_build_scopes_from_headers_and_blocks and is preserved through build_scopes (filters, folding); "
+                   "fold_scopes puts every scope in exactly one place; unfold_scopes is a pre-order walk", floor=5)
     sh = prj.func("codelimit.common.scope.Header:sort_headers")
-    calls = [c for c in sh.calls() if attr_chain(c.func) == "sorted"]
-    if len(calls) != 1:
-        raise AnalysisError("sort_headers: sorted(...) call not found")
-    r = _sort_key_is_position(sh, calls[0], "token_range.start")
-    rev = {k.arg: k.value for k in calls[0].keywords}.get("reverse")
-    if r == "ok" and rev is not None and unparse(rev) == "reverse":
-        ctx.ok("R2", sh.site(calls[0]), "sort_headers: sorted by (line, column) of tokens[h.token_range.start], direction = reverse parameter")
-    elif r != "ok":
-        ctx.viol("R2", "sort_headers/key", sh.site(calls[0]), f"sort_headers: {r}")
-    else:
-        ctx.viol("R2", "sort_headers/direction", sh.site(calls[0]), f"sort_headers ignores its reverse parameter (reverse={unparse(rev) if rev is not None else 'absent'})")
-    # order typestate in _build_scopes_from_headers_and_blocks
-    b = prj.func(f"{SCU}:_build_scopes_from_headers_and_blocks")
-    state = None
-    src = None
-    for n in b.walk():
-        if isinstance(n, ast.Assign) and isinstance(n.value, ast.Call) and prj.resolve_callee_name(b, n.value).endswith(":sort_headers"):
-            kw = {k.arg: k.value for k in n.value.keywords}
-            rv = kw.get("reverse")
-            if len(n.value.args) > 2:
-                rv = n.value.args[2]
-            d = "DESC" if isinstance(rv, ast.Constant) and rv.value is True else "ASC" if rv is None or (isinstance(rv, ast.Constant) and rv.value is False) else "?"
-            src = (unparse(n.targets[0]), d)
-    if src is None:
-        ctx.viol("R2", "_build_scopes/unsorted", b.site(), "headers are not sorted by position before scopes are built: JavaScript/TypeScript results (functions + arrow functions) come out grouped by kind, not in source order")
-    else:
-        loops = [l for l in b.walk() if isinstance(l, ast.For) and unparse(l.iter) == src[0]]
-        if not loops:
-            ctx.viol("R2", "_build_scopes/iteration", b.site(), f"the sorted header list {src[0]} is not the one iterated")
+    dirs = {}
+    bad = False
+    for rv in (False, True):
+        m = sort_direction(prj, sh, rv, "token_range.start")
+        if m.wrong:
+            ctx.viol("R2", "sort_headers/key", m.site or sh.site(), f"sort_headers: {m.wrong}")
+            bad = True
+            break
+        dirs[rv] = m.descending
+    if not bad:
+        if dirs == {False: False, True: True}:
+            ctx.ok("R2", sh.site(), "sort_headers: ordered by (line, column) of tokens[h.token_range.start], ascending for reverse=False, descending for reverse=True")
         else:
-            state = src[1]
-            appends = [c for c in ast.walk(loops[0]) if isinstance(c, ast.Call) and isinstance(c.func, ast.Attribute) and c.func.attr in ("append", "insert")]
-            for c in appends:
-                if c.func.attr == "insert" and unparse(c.func.value) == "result":
-                    state = "ASC" if state == "DESC" else "DESC"
-            for st in b.node.body:
-                if isinstance(st, ast.Expr) and isinstance(st.value, ast.Call) and isinstance(st.value.func, ast.Attribute) and st.value.func.attr == "reverse" \
-                        and unparse(st.value.func.value) == "result" and st.lineno > loops[0].lineno:
-                    state = "ASC" if state == "DESC" else "DESC"
-            rets = [r for r in b.walk() if isinstance(r, ast.Return) and r.value is not None]
-            for r in rets:
-                t = unparse(r.value)
-                if t.endswith("[::-1]") or t.startswith("list(reversed("):
-                    state = "ASC" if state == "DESC" else "DESC"
-            if state == "ASC":
-                ctx.ok("R2", b.site(), f"_build_scopes_from_headers_and_blocks: headers {src[1]}, result order typestate ASC at return")
-            else:
-                ctx.viol("R2", "_build_scopes/order", b.site(), f"scopes are returned in {state} order of their header position (headers sorted {src[1]}, reversals do not restore ascending order): measurements come out in reverse source order")
+            ctx.viol("R2", "sort_headers/direction", sh.site(),
+                     f"sort_headers ignores or inverts its reverse parameter: descending={dirs[False]} for reverse=False, descending={dirs[True]} for reverse=True")
+
+    def sorter(state, call):
+        r = _reverse_arg(call)
+        if r is None:
+            raise OrderUnknown(f"direction argument of {unparse(call)[:50]}")
+        if not call.args or state.dir_of(call.args[0]) is None and not isinstance(call.args[0], ast.Name):
+            pass
+        return (POS, r)
+    oa = OrderAnalysis(prj, {sh.qual: sorter})
+    b = prj.func(f"{SCU}:_build_scopes_from_headers_and_blocks")
+    try:
+        rets = oa.returns(b)
+    except OrderUnknown as e:
+        raise AnalysisError(f"{b.disp}: order typestate not derivable ({e})")
+    if rets == {(POS, False)}:
+        ctx.ok("R2", b.site(), "_build_scopes_from_headers_and_blocks: order typestate at return = ascending header position")
+    elif (POS, True) in rets:
+        ctx.viol("R2", "_build_scopes/order", b.site(), "scopes are returned in DESCENDING order of their header position (the reversals do not restore ascending order): measurements come out in reverse source order")
+    elif any(d and isinstance(d[0], tuple) and d[0][0] == "param" for d in rets):
+        ctx.viol("R2", "_build_scopes/unsorted", b.site(), "scopes are built in the order of the headers parameter, which is not sorted by position: JavaScript/TypeScript results (functions + arrow functions) come out grouped by kind, not in source order")
+    else:
+        raise AnalysisError(f"{b.disp}: order typestate at return is {rets}: not derivable")
+    # whole pipeline: build_scopes returns ascending position whatever the helpers in between are called
+    bs = prj.func(f"{SCU}:build_scopes")
+    oa2 = OrderAnalysis(prj, {sh.qual: sorter, b.qual: (lambda state, call: (POS, False))})
+    try:
+        rets = oa2.returns(bs)
+    except OrderUnknown as e:
+        raise AnalysisError(f"{bs.disp}: order typestate not derivable ({e})")
+    if rets == {(POS, False)}:
+        ctx.ok("R2", bs.site(), "build_scopes: every return is in ascending header position (marker filter, nesting filter and folding select / regroup without reordering)")
+    elif any(d == (POS, True) for d in rets):
+        ctx.viol("R2", "build_scopes/reorders", bs.site(), "build_scopes returns the scopes in reversed source order on some path")
+    else:
+        culprit = None
+        for c in bs.calls():
+            tg, kind = prj.resolve_call(bs, c)
+            for t in tg:
+                f = prj.func(t.qual)
+                badc = [x for x in f.calls() if (attr_chain(x.func) or "").split(".")[-1] in ("sorted", "reversed", "sort", "reverse", "insert")]
+                if badc and t.qual not in (sh.qual, b.qual):
+                    culprit = (f, badc[0])
+        if culprit:
+            f, c = culprit
+            ctx.viol("R2", f"{f.local}/reorders", f.site(c), f"{f.local} reorders scopes: {unparse(c)[:50]}")
+        else:
+            raise AnalysisError(f"{bs.disp}: order typestate at return is {rets}: not derivable")
     # fold_scopes: exactly one placement per scope, no recursion / second pass
     fo = prj.func(f"{SCU}:fold_scopes")
     loops = [l for l in fo.node.body if isinstance(l, ast.For)]
     rec = [c for c in fo.calls() if fo in prj.resolve_call(fo, c)[0]]
     if len(loops) == 1 and not rec:
-        from ..paths import enumerate_paths
-        try:
-            paths = enumerate_paths(loops[0].body)
-        except AnalysisError:
-            paths = None
-        good = True
-        if paths is not None:
-            for p in paths:
-                pass
         apps = [c for c in ast.walk(loops[0]) if isinstance(c, ast.Call) and isinstance(c.func, ast.Attribute) and c.func.attr == "append"]
         # each append sits in a different, mutually exclusive branch
         branches = set()
@@ -157,52 +171,64 @@ def rule_R2(ctx, prj):
                  f"fold_scopes {why}: a scope that was already placed under its parent is placed again further down (grandchildren end up both in the "
                  f"parent's and in the child's children), so unfold_scopes reports it twice - equal starts, length counted twice in the file total")
     un = prj.func(f"{SCU}:unfold_scopes")
-    lp = [l for l in un.node.body if isinstance(l, ast.For)]
-    ok = False
-    if len(lp) == 1:
-        body = lp[0].body
-        kinds = [unparse(s) for s in body]
-        v = unparse(lp[0].target)
-        ok = len(body) == 2 and kinds[0] == f"result.append({v})" and kinds[1] == f"result.extend(unfold_scopes({v}.children))"
-    if ok:
-        ctx.ok("R2", un.site(), "unfold_scopes: pre-order (scope, then its children)")
+    events, site, where = emission_order(prj, un, "children")
+    if events == ["elem", "rec"]:
+        ctx.ok("R2", site, f"unfold_scopes ({where.local}): pre-order (the scope, then the walk of its children)")
+    elif any(e.startswith("other:") for e in events):
+        raise AnalysisError(f"{where.disp}: the loop body emits {events}: not understood")
     else:
-        ctx.viol("R2", "unfold_scopes/order", un.site(), "unfold_scopes is not the pre-order walk `append(scope); extend(unfold_scopes(scope.children))`: nested functions are listed before their parent or not exactly once")
-    # the nocl filter and filter_scopes_nested_functions preserve order: comprehension / single-append loops
-    for q in (f"{SCU}:_filter_nocl_scopes", f"{SCU}:filter_scopes_nested_functions"):
-        f = prj.func(q)
-        bad = [c for c in f.calls() if (attr_chain(c.func) or "").split(".")[-1] in ("sorted", "reversed", "sort", "reverse", "insert")]
-        if bad:
-            ctx.viol("R2", f"{f.local}/reorders", f.site(bad[0]), f"{f.local} reorders scopes: {unparse(bad[0])[:50]}")
-        else:
-            ctx.ok("R2", f.site(), f"{f.local}: selects without reordering")
+        ctx.viol("R2", "unfold_scopes/order", site, f"unfold_scopes emits {events} per scope instead of the pre-order [elem, rec]: nested functions are listed before their parent or not exactly once")
 
 
 def rule_R3(ctx, prj):
     ctx.rule("R3", "a header's name token is drawn from the tokens of the same match whose start/end form its range, through "
                    "a filter that is exactly is_name()", floor=1)
-    gh = prj.func(f"{SCU}:get_headers")
-    hs = [c for c in gh.calls() if attr_chain(c.func) == "Header" and len(c.args) == 2]
-    if not hs:
+    gh0 = prj.func(f"{SCU}:get_headers")
+    found = [(f, c) for f in with_helpers(prj, gh0) for c in f.calls() if attr_chain(c.func) == "Header" and len(c.args) + len(c.keywords) == 2]
+    if not found:
         raise AnalysisError("get_headers: Header(...) construction not found")
-    for c in hs:
-        nt = expand(gh, c.args[0])
-        rng = c.args[1]
+    for gh, c in found:
+        kw = {k.arg: k.value for k in c.keywords}
+        a0 = c.args[0] if c.args else kw.get("name_token")
+        a1 = c.args[1] if len(c.args) > 1 else kw.get("token_range")
+        if a0 is None or a1 is None:
+            raise AnalysisError(f"{gh.site(c)}: arguments of Header(...) not understood")
+        nt = expand(gh, a0)
+        rng = expand(gh, a1)
         pat = None
         if isinstance(rng, ast.Call) and attr_chain(rng.func) == "TokenRange" and len(rng.args) == 2:
             a, b = unparse(rng.args[0]), unparse(rng.args[1])
             if a.endswith(".start") and b.endswith(".end") and a[:-6] == b[:-4]:
                 pat = a[:-6]
-        ok = False
-        if pat and isinstance(nt, ast.Call) and attr_chain(nt.func) == "next" and nt.args and isinstance(nt.args[0], ast.GeneratorExp):
-            g = nt.args[0]
-            gen = g.generators[0]
-            cond = [unparse(x) for x in gen.ifs]
-            ok = unparse(gen.iter) == f"{pat}.tokens" and cond == [f"{unparse(gen.target)}.is_name()"] and unparse(g.elt) == unparse(gen.target)
-        if ok:
+        if pat is None:
+            raise AnalysisError(f"{gh.site(c)}: the header's range {unparse(rng)[:60]} is not TokenRange(<match>.start, <match>.end)")
+        gen = None
+        x = nt
+        if isinstance(x, ast.Call) and attr_chain(x.func) == "next" and x.args:
+            x = x.args[0]
+            if isinstance(x, ast.Call) and attr_chain(x.func) == "iter" and len(x.args) == 1:
+                x = x.args[0]
+            if isinstance(x, (ast.GeneratorExp, ast.ListComp)) and len(x.generators) == 1:
+                gen = x
+        elif isinstance(x, ast.Subscript) and isinstance(x.slice, ast.Constant) and x.slice.value == 0 and isinstance(x.value, ast.ListComp) \
+                and len(x.value.generators) == 1:
+            gen = x.value
+        if gen is None:
+            raise AnalysisError(f"{gh.site(c)}: the name token {unparse(nt)[:60]} is not a first-match selection over a token list")
+        g = gen.generators[0]
+        tv = unparse(g.target)
+        src = unparse(g.iter)
+        conds = [unparse(x) for x in g.ifs]
+        if src != f"{pat}.tokens":
+            ctx.viol("R3", "get_headers/name-token", gh.site(c), f"the name token is selected from {src} while the range is ({pat}.start, {pat}.end): not a token of the same match")
+        elif unparse(gen.elt) != tv:
+            ctx.viol("R3", "get_headers/name-token", gh.site(c), f"the selection yields {unparse(gen.elt)[:40]}, not the token itself")
+        elif conds == [f"{tv}.is_name()"]:
             ctx.ok("R3", gh.site(c), f"get_headers: name = first is_name() token of {pat}.tokens, range = ({pat}.start, {pat}.end)")
+        elif all(".is_name()" not in x for x in conds):
+            ctx.viol("R3", "get_headers/name-token", gh.site(c), f"the name token is the first token of the match with {conds or 'no condition'}: not the first is_name() token")
         else:
-            ctx.viol("R3", "get_headers/name-token", gh.site(c), f"the name token is {unparse(nt)[:80]} with range {unparse(rng)[:50]}: not the first is_name() token of the same match")
+            raise AnalysisError(f"{gh.site(c)}: name-token filter {conds} not understood")
 
 
 def run(ctx, prj: Project):
